@@ -136,7 +136,7 @@ pub fn run(seed: u64, count: usize, outdir: &str) -> std::io::Result<i32> {
     let only: Option<usize> = std::env::var("FV_ONLY").ok().and_then(|v| v.parse().ok());
     for ci in 0..count {
         let mut r = rng.fork();
-        if let Some(o) = only { if o != ci { cases.push_str("c08 0 0\n"); impls.push('\n'); continue; } }
+        if let Some(o) = only { if o != ci { cases.push_str("c08 0 0\n"); impls.push_str("manifold 1 | volsign 0\n"); continue; } }
         let mut g = gen_csg(&mut r, true, true);
         let mut depth = *r.pick(&[1u8, 2, 3, 3, 4, 4, 5, 6]);
         let corpus = ci < 3;
@@ -179,7 +179,8 @@ pub fn run(seed: u64, count: usize, outdir: &str) -> std::io::Result<i32> {
         if !corpus && r.chance(0.25) { let k = *r.pick(&[1e-4f32, 1e-2, 10.0, 1e3, 1e5, 1e6]); unscaled = Some((g.root, k)); let root = g.ctx.mul(g.root, k).unwrap(); g.root = root; }
         let mat = if corpus { Matrix4::identity() } else if oblique { Matrix4::from_euler_angles(r1c(&mut r), r1c(&mut r), r1c(&mut r)) } else { match r.below(4) { 0 => Matrix4::identity(), 1 => Matrix4::new_scaling(s),
             // a perspective camera (as the CLI builds): the bottom row has a z term
-            3 => { let mut m = Matrix4::new_scaling(1.3); m[(3, 2)] = *r.pick(&[0.3f32, 0.5, -0.25]); m }
+            // (the model-space window shrinks to s / (1 + |p|) where w is largest: keep it wider than the shapes, which reach 0.9)
+            3 => { let p = *r.pick(&[0.3f32, 0.5, -0.25]); let mut m = Matrix4::new_scaling(1.02 * (1.0 + p.abs())); m[(3, 2)] = p; m }
             _ => Matrix4::new_scaling(1.8) * Matrix4::from_euler_angles(r.unit() as f32 * 3.0, r.unit() as f32 * 3.0, r.unit() as f32 * 3.0) } };
         let threads = *r.pick(&[0usize, 0, 1, 2, 4, 9]);
         let line0 = format!("kind={} nodes={} depth={depth} threads={threads} mat={:?}", g.kind, g.ctx.len(), mat.as_slice());
@@ -223,6 +224,10 @@ pub fn run(seed: u64, count: usize, outdir: &str) -> std::io::Result<i32> {
             for i in 0..n { for j in 0..n { for k in 0..n { let id = (i * n + j) * n + k;
                 for (ok, id2) in [(i + 1 < n, id + n * n), (j + 1 < n, id + n), (k + 1 < n, id + 1)] { if ok && neg[id] != neg[id2] { a += h2 * 0.5 * (ascale[id] + ascale[id2]) as f64; } } } } }
             a };
+        // the property speaks of shapes whose surface lies strictly inside the meshing region: a negative sample in the outermost
+        // layer of the grid means the solid reaches the boundary, where the mesh is cut open by design
+        let touches_boundary = (0..n).any(|a| (0..n).any(|b| [0, n - 1].iter().any(|&e| neg[(e * n + a) * n + b] || neg[(a * n + e) * n + b] || neg[(a * n + b) * n + e])));
+        if touches_boundary { *hist.entry("skipped-solid-reaches-the-region-boundary".into()).or_default() += 1; cases.push_str("c08 0 0\n"); impls.push_str("manifold 1 | volsign 0\n"); continue; }
         let vol_sampled = if projective { wsum * (2.0 / n as f64).powi(3) } else { inside as f64 * (2.0 / n as f64).powi(3) * det };
         let cell = 2.0 / (1u32 << depth) as f64 * det.cbrt();
         let mut il = String::new();
